@@ -26,6 +26,8 @@ type cv struct {
 	T2   int8   `json:"t2,omitempty"`
 	ID   int16  `json:"id,omitempty"`
 	N    int    `json:"n,omitempty"`
+
+	str string // the decoded string itself (not a copy), to observe aliasing after buffer reuse
 }
 
 func (v cv) String() string {
@@ -291,6 +293,7 @@ func cvBufRead(kind string, r *thrift.BufferReader) (cv, error) {
 		var x string
 		x, err = r.ReadString()
 		o.S = []byte(x)
+		o.str = x
 	case "binary":
 		o.S, err = r.ReadBinary()
 	case "field":
@@ -445,8 +448,26 @@ func c01Check(c *mc.Ctx, k c01Case, doMem, doStreamW, doStreamR bool) {
 			vsync.Reset()
 			r := bufiox.NewBytesReader(in)
 			br := thrift.NewBufferReader(r)
+			var decoded []cv
+			defer func() {
+				// decoded strings/binaries must survive reuse of the input buffer
+				if failed {
+					return
+				}
+				for i := range in {
+					in[i] = 0xEE
+				}
+				for i, g := range decoded {
+					if !cvEq(g, stripLen(vals[i])) || (g.K == "string" && g.str != string(vals[i].S)) {
+						bad("bufread-value-aliases-input:"+vals[i].K, "value #%d %v decoded by BufferReader/BytesReader changed after the input buffer was overwritten", i, vals[i])
+						failed = true
+						return
+					}
+				}
+			}()
 			for i, v := range vals {
 				got, err := cvBufRead(v.K, br)
+				decoded = append(decoded, got)
 				if err != nil {
 					bad("bufread-error:"+v.K, "BufferReader/BytesReader failed on value #%d %v: %v", i, v, err)
 					failed = true
@@ -490,7 +511,21 @@ func c01Check(c *mc.Ctx, k c01Case, doMem, doStreamW, doStreamR bool) {
 				failed = true
 				return
 			}
+			// the same writer is used for a second, different message after the Flush
+			pre := cv{K: "i64", I: 0x5a5b5c5d5e5f6061}
+			want2 := append(cvRef(nil, pre), want...)
+			cvBufWrite(bw, pre)
+			for _, v := range vals {
+				cvBufWrite(bw, v)
+			}
+			dw.Flush()
 			bw.Recycle()
+			if !bytes.Equal(sink.Got[len(want):], want2) {
+				bad("bufwrite-bytes-second-message", "the second message written through the same BufferWriter/DefaultWriter after a Flush differs from the wire format at +%d", firstDiff(sink.Got[len(want):], want2))
+				failed = true
+				return
+			}
+			sink.Got = sink.Got[:len(want)]
 			if !bytes.Equal(sink.Got, want) {
 				bad("bufwrite-bytes", "bytes delivered to the io.Writer under BufferWriter differ from the wire format at +%d (%d bytes, want %d)", firstDiff(sink.Got, want), len(sink.Got), len(want))
 				failed = true
@@ -507,7 +542,19 @@ func c01Check(c *mc.Ctx, k c01Case, doMem, doStreamW, doStreamR bool) {
 				}
 			}
 			yw.Flush()
+			first := append([]byte{}, target...)
+			cvBufWrite(bw2, pre)
+			for _, v := range vals {
+				cvBufWrite(bw2, v)
+			}
+			yw.Flush()
 			bw2.Recycle()
+			if !bytes.Equal(target, want2) && !(len(target) == len(want)+len(want2) && bytes.Equal(target[len(want):], want2)) {
+				bad("bufwrite-bytes-second-message", "the second message written through the same BufferWriter/BytesWriter after a Flush is neither the message nor both messages (len %d, first difference with the wire format at +%d)", len(target), firstDiff(target, want))
+				failed = true
+				return
+			}
+			target = first
 			if !bytes.Equal(target, want) {
 				bad("bufwrite-bytes", "BufferWriter over a bytes writer produced bytes differing from the wire format at +%d", firstDiff(target, want))
 				failed = true
@@ -521,8 +568,10 @@ func c01Check(c *mc.Ctx, k c01Case, doMem, doStreamW, doStreamR bool) {
 			er := NewEnvReader(in, k.Env)
 			dr := bufiox.NewDefaultReader(er)
 			br := thrift.NewBufferReader(dr)
+			var sdecoded []cv
 			for i, v := range vals {
 				got, err := cvBufRead(v.K, br)
+				sdecoded = append(sdecoded, got)
 				if err != nil {
 					bad("streamread-error:"+v.K, "BufferReader/DefaultReader failed on value #%d %v: %v", i, v, err)
 					failed = true
@@ -545,7 +594,16 @@ func c01Check(c *mc.Ctx, k c01Case, doMem, doStreamW, doStreamR bool) {
 				return
 			}
 			br.Recycle()
+			dr.Next(len(c01Trail)) // drain, so that Release really gives the buffer back
 			dr.Release(nil)
+			mcache.VerifCoTenant(true) // the reader's buffers are recycled and scribbled by another tenant
+			for i, g := range sdecoded {
+				if !cvEq(g, stripLen(vals[i])) || (g.K == "string" && g.str != string(vals[i].S)) {
+					bad("streamread-value-aliases-buffer:"+vals[i].K, "value #%d %v decoded by BufferReader/DefaultReader changed after Release and recycling of the read buffer", i, vals[i])
+					failed = true
+					return
+				}
+			}
 		}
 	})
 	if pi != nil && !failed {
@@ -589,7 +647,14 @@ func init() {
 					envChooser, envDevMax = mc.NewReplayChooser(k.Choices), k.DevMax
 					defer func() { envChooser, envDevMax = nil, 0 }()
 				}
-				c01Check(c, k, true, true, true)
+				switch k.Mode { // re-execute exactly the configuration that was recorded
+				case "mem":
+					c01Check(c, k, true, false, false)
+				case "stream":
+					c01Check(c, k, false, false, true)
+				default:
+					c01Check(c, k, true, true, false)
+				}
 			})
 		},
 	})
